@@ -44,11 +44,18 @@ FTwo == {"bal", "code", "chash", "s1", "sui", "eq", "rs", "req"}
 AcctCU == {"c", "u"}
 KindsTwo == [a \in AcctCU |-> IF a = "c" THEN {"bal", "s1", "sui"} ELSE {"bal", "eq"}]
 BaseTwo == {[a \in AcctCU |-> Empty(FTwo)], [a \in AcctCU |-> IF a = "c" THEN FullC(FTwo) ELSE FullU(FTwo)]}
+\* ---- creations that get reverted: [a write]; Snapshot; create / modify 1-2 entries of any trie, a profile key, code;
+\* Revert; [a write on either account]; Seal.  Empty parent state: every write inside the snapshot creates its entry;
+\* populated parent state: it modifies an existing one.
+FCreate == {"bal", "code", "chash", "s1", "ax", "asup", "afr", "aid", "eq", "p1", "p2", "rs", "rac", "rai", "req"}
+KindsCreate == [a \in AcctCU |-> IF a = "c" THEN {"bal", "s1", "code"} ELSE {"bal", "ax", "afr", "aid", "eq", "p1"}]
+BaseCreate == {[a \in AcctCU |-> Empty(FCreate)], [a \in AcctCU |-> IF a = "c" THEN FullC(FCreate) ELSE FullU(FCreate)]}
 \* ---- everything (simulation)
 KindsAll == [a \in AcctCU |-> IF a = "c" THEN KC ELSE KU]
 BaseAll == {[a \in AcctCU |-> Empty(AllFields)], [a \in AcctCU |-> IF a = "c" THEN FullC(AllFields) ELSE FullU(AllFields)]}
 \* ---- negative controls: one contract account, the kinds the deviations need
-FNeg == {"bal", "code", "chash", "s1", "sui", "ev", "aid", "eq", "rs", "rai", "req"}
+FNeg == {"bal", "code", "chash", "s1", "sui", "ev", "aid", "eq", "ax", "asup", "afr", "rs", "rac", "rai", "req"}
+KindsNegAsset == [a \in AcctC |-> {"bal", "ax", "afr"}]
 KindsNeg == [a \in AcctC |-> {"bal", "s1", "code", "sui", "ev", "aid", "eq"}]
 BaseNeg == {[a \in AcctC |-> Empty(FNeg)]}
 \* ---- nesting: one attribute, revisions nested to depth 3, long enough for revert-inner / write / revert-outer
@@ -57,5 +64,5 @@ KindsNest == [a \in AcctC |-> {"bal"}]
 BaseNest == {[a \in AcctC |-> Empty(FNest)]}
 KindsNegGap == [a \in AcctC |-> {"bal", "s1"}]
 NoDev == {}
-AllDev == {"Dev_RevertedCreationLeavesEmptyRoot", "Dev_MergeAcrossSuicide", "Dev_WorthlessSuicideDropped", "Dev_UndoCodeDropsPreviousCode", "Dev_UndoSuicideShallow", "Dev_UndoEventNoop", "Dev_RevertVersionGapPanics", "Dev_UndoFirstEquityPanics"}
+AllDev == {"Dev_EmptyWriteLeavesEmptyRoot", "Dev_SaveFailsOnDirtyEmptyCode", "Dev_UndoAssetProfileKeyLeavesEmptyEntry", "Dev_MergeAcrossSuicide", "Dev_WorthlessSuicideDropped", "Dev_UndoCodeDropsPreviousCode", "Dev_UndoSuicideShallow", "Dev_UndoEventNoop", "Dev_RevertVersionGapPanics", "Dev_UndoFirstEquityPanics"}
 ====
